@@ -152,7 +152,7 @@ def simple_comparison_expression_cmp_contract():
                         a['expr1'].x['negated'].t == a['expr2'].x['negated'].t, CONSTCMP(a['expr1'].x['rhs'].t, a['expr2'].x['rhs'].t) == 0)))],
                     raises={}, handlers={'object_path_cmp': _h_tokcmp(PATHCMP), 'comparison_operator_cmp': _h_tokcmp(OPCMP), 'constant_cmp': _h_tokcmp(CONSTCMP)},
                     assumptions=['callee contracts of simple_comparison_expression_cmp: object_path_cmp and constant_cmp are total preorders on their domains (assumed here; '
-                                 'comparison_operator_cmp is proved; both are exercised by the bounded stand-in, the generator-based iter_lex_cmp under them is outside the modelled subset)'])
+                                 'comparison_operator_cmp is proved, constant_cmp is proved against the contracts of the per-kind comparators; object_path_cmp rests on the generator-based iter_lex_cmp, outside the modelled subset)'])
 
 
 def preorder_axioms(fn, toks):
@@ -280,3 +280,119 @@ def string_escape_obligations(chk, src_root):
     if wrongp: chk.violation('patterns.StringConstant.__str__#quoted escaped text', f'str(StringConstant({wrongp[0]!r})) = {str(StringConstant(wrongp[0]))!r}', {'input': {'value': repr(wrongp[0])}})
     chk.assume('str.replace with a one-character pattern distributes over concatenation (a match cannot straddle a concatenation point): a chain of such calls is a string homomorphism')
     chk.say(f'  [P] escape_quotes_and_backslashes: replace-chain shape {"recognised" if shape else "NOT recognised"}, per-character obligation over {len(cps)} code points ({time.time() - t0:.1f}s)')
+
+
+# ------------------------------------------------------------------------------------------------------------------------------------------
+# constant_cmp: the dispatch over constant kinds.  A constant is (kind, payload token); the tables `_CONSTANT_TYPE_ORDER` and `_CONSTANT_COMPARATORS` are re-read from the
+# source on every run (class names -> kinds); the per-kind comparators are callees under contract: total preorders on the payloads of their kind (bool_cmp and
+# generic_constant_cmp are proved above; hex_cmp, bin_cmp, list_cmp are assumed -- bytes / sorted-list comparison outside the modelled subset).
+KINDS = ['Integer', 'Float', 'String', 'Boolean', 'Timestamp', 'Hex', 'Binary', 'List']
+KindSort, KIND = E.declare_enum('ConstKind', KINDS)
+KINDCMP = z3.Function('kind_cmp', KindSort, TOK, TOK, z3.IntSort())        # the comparator registered for a kind, applied to two payloads
+NUMCMP = z3.Function('number_cmp', TOK, TOK, z3.IntSort())                # generic_constant_cmp on two numbers (ints and floats compare as numbers)
+
+
+def _read_tables(src_root):
+    import ast as _ast, os as _os
+    tree = _ast.parse(open(_os.path.join(src_root, CC)).read())
+    order = comps = None
+    for n in tree.body:
+        if isinstance(n, _ast.Assign) and len(n.targets) == 1 and isinstance(n.targets[0], _ast.Name):
+            if n.targets[0].id == '_CONSTANT_TYPE_ORDER' and isinstance(n.value, _ast.Tuple): order = [_ast.unparse(e) for e in n.value.elts]
+            if n.targets[0].id == '_CONSTANT_COMPARATORS' and isinstance(n.value, _ast.Dict): comps = {_ast.unparse(k): _ast.unparse(v) for k, v in zip(n.value.keys, n.value.values)}
+    if order is None or comps is None: raise Unsupported('tables _CONSTANT_TYPE_ORDER / _CONSTANT_COMPARATORS not found as literals')
+    def kind(name):
+        k = name.replace('Constant', '')
+        if k not in KINDS: raise Unsupported(f'unknown constant class {name}')
+        return k
+    return [kind(n) for n in order], {kind(k): v for k, v in comps.items()}
+
+
+def _const(n): return E.Rec(kind=Val('enum:ConstKind', z3.Const(n + '.kind', KindSort)), tok=Val('tok', z3.Const(n + '.payload', TOK)))
+
+
+def constant_cmp_contract(src_root):
+    order, comps = _read_tables(src_root)
+    isnum = lambda v: z3.Or(v.x['kind'].t == KIND['Integer'], v.x['kind'].t == KIND['Float'])
+
+    def h_isnum(x, v, p, site):
+        if v.sort != 'rec' or 'kind' not in v.x: raise Unsupported(site + ' isinstance of ' + v.sort)
+        yield p, Bool(isnum(v))
+
+    def h_type(x, e, p, site):
+        for p1, vs in x.ev_seq(list(e.args), p):
+            if isinstance(vs, Exc): yield p1, vs
+            else: yield p1, Val('cls', vs[0].x['kind'].t)
+
+    def m_index(x, recv, args, e, p, site):
+        k = args[0].t; before = []
+        for i, name in enumerate(order):
+            q = p.fork(*before, k == KIND[name])
+            if sat(q.pc): yield q, Int(i)
+            before.append(k != KIND[name])
+        q = p.fork(*before)
+        if sat(q.pc): yield q, Exc('ValueError', site)
+
+    def m_get(x, recv, args, e, p, site):
+        yield p, Val('cmpfn', args[0].t)
+
+    def h_cmpfunc(x, e, p, site):
+        for p1, f in x.ev(e.func, p):
+            for p2, vs in x.ev_seq(list(e.args), p1):
+                if isinstance(vs, Exc): yield p2, vs; continue
+                a, b = vs
+                x.oblige('call(cmp_func): the comparator looked up for the first operand\'s kind is applied to two constants of that kind', p2.pc,
+                         z3.And(a.x['kind'].t == f.t, b.x['kind'].t == f.t), p2.exact, 'call-requires')
+                yield p2, Int(KINDCMP(f.t, a.x['tok'].t, b.x['tok'].t))
+
+    def h_num(x, e, p, site):
+        for p1, vs in x.ev_seq(list(e.args), p):
+            if isinstance(vs, Exc): yield p1, vs; continue
+            a, b = vs
+            x.oblige('call(generic_constant_cmp): both operands are numbers', p1.pc, z3.And(isnum(a), isnum(b)), p1.exact, 'call-requires')
+            yield p1, Int(NUMCMP(a.x['tok'].t, b.x['tok'].t))
+
+    def callee_contracts(a):
+        ax = preorder_axioms(NUMCMP, [a['value1'].x['tok'].t, a['value2'].x['tok'].t])
+        for k in comps: ax += preorder_axioms(lambda s, t, k=k: KINDCMP(KIND[k], s, t), [a['value1'].x['tok'].t, a['value2'].x['tok'].t])
+        return z3.And(*ax)
+
+    def same_kind(a):
+        k1, k2 = a['value1'].x['kind'].t, a['value2'].x['kind'].t
+        return z3.Or(k1 == k2, z3.And(isnum(a['value1']), isnum(a['value2'])))
+    registered = lambda v: z3.BoolVal(True)          # every constant kind of the pattern language (the enum): a kind the tables forgot is a TypeError / ValueError escaping
+    c = Contract(f'{CC}::constant_cmp', props=['C09'], params={'value1': _const('value1'), 'value2': _const('value2')},
+                 requires=[('constants of every kind of the pattern language', lambda a: z3.And(registered(a['value1']), registered(a['value2']))),
+                           ('callee contracts: the per-kind comparators are total preorders on payloads of their kind', callee_contracts)],
+                 ensures=[('0 only for constants of the same kind (numbers are one kind) whose payloads compare equal under that kind\'s comparator', lambda a, r: z3.Implies(expect(r, 'int') == 0, same_kind(a)))],
+                 raises={}, handlers={'isinstance:(IntegerConstant, FloatConstant)': h_isnum, 'type': h_type, 'cmp_func': h_cmpfunc, 'generic_constant_cmp': h_num, 'generic_cmp': _h_generic_cmp},
+                 globals={'_CONSTANT_TYPE_ORDER': Val('clstuple', x=order), '_CONSTANT_COMPARATORS': Val('clsdict', x=comps)},
+                 registry_ext={'methods': {('.index', 'clstuple'): m_index, ('.get', 'clsdict'): m_get}},
+                 truthy_handlers={'cmpfn': lambda x, v: z3.Or(*[v.t == KIND[k] for k in comps])},
+                 assumptions=['callee contracts of constant_cmp: hex_cmp, bin_cmp, list_cmp are total preorders on constants of their kind (assumed: bytes / sorted-list comparison is outside the modelled subset); '
+                              'bool_cmp and generic_constant_cmp are proved'])
+    c.tables = (order, comps)
+    return c
+
+
+def run_constant_cmp(chk, src_root):
+    from vf.summary import Summary, sgn
+    try: c = constant_cmp_contract(src_root)
+    except Unsupported as u:
+        chk.undecided_notes.append(f'constant_cmp: {u}'); return
+    rep = chk.prove(c, src_root=src_root); chk.canary(c)
+    s = Summary(rep, ['value1', 'value2'])
+    if not s.ok:
+        chk.undecided_notes.append(f'constant_cmp: no summary ({s.why})'); return
+    order, comps = c.tables
+    mk = lambda n: [z3.Const(f'cc_{n}.kind', KindSort), z3.Const(f'cc_{n}.payload', TOK)]          # leaf_terms order: kind, tok
+    a, b, d = mk('a'), mk('b'), mk('c')
+    dom = lambda v: z3.BoolVal(True)
+    toks = [a[1], b[1], d[1]]
+    ax = preorder_axioms(NUMCMP, toks)
+    for k in comps: ax += preorder_axioms(lambda s_, t_, k=k: KINDCMP(KIND[k], s_, t_), toks)
+    F = lambda u, v: s.apply(u, v)
+    hyp = [dom(a), dom(b), dom(d)] + ax
+    chk.lemma('constant_cmp: reflexive: cmp(a, a) == 0', F(a, a) == 0, assumptions=hyp)
+    chk.lemma('constant_cmp: antisymmetric: sign cmp(a, b) == - sign cmp(b, a)', sgn(F(a, b)) == -sgn(F(b, a)), assumptions=hyp)
+    chk.lemma('constant_cmp: transitive: cmp(a, b) <= 0 and cmp(b, c) <= 0 => cmp(a, c) <= 0', z3.Implies(z3.And(F(a, b) <= 0, F(b, d) <= 0), F(a, d) <= 0), assumptions=hyp)
